@@ -6,6 +6,8 @@ Cargo.lock).  The only edits to extracted text are *insertions* wrapped in marke
     /*@G<*/ ghost text /*@G>*/          requires/ensures/invariant/decreases/proof blocks/attributes
     /*@R<*/(r: /*@R>*/ T /*@R<*/)/*@R>*/  naming the return value
     /*@B<*/i/*@B:_>*/                   naming an unused loop binder (`_` -> `i`)
+    /*@D:pub(crate)@*/                  a visibility qualifier dropped from an enum (Verus derives `open`
+                                        spec functions for enums and rejects them on non-`pub` items)
 
 `check_tokens` removes them again and requires token equality with the source item; a mismatch, a
 lost anchor, or an unsupported construct is ScanError -> exit 2 (undecided), never an alarm.
@@ -32,6 +34,7 @@ def undo_markers(text):
     text = re.sub(r'/\*@G<\*/.*?/\*@G>\*/', ' ', text, flags=re.S)
     text = re.sub(r'/\*@R<\*/.*?/\*@R>\*/', ' ', text, flags=re.S)
     text = re.sub(r'/\*@B<\*/.*?/\*@B:(.*?)>\*/', lambda m: m.group(1), text, flags=re.S)
+    text = re.sub(r'/\*@D:(.*?)@\*/', lambda m: m.group(1), text, flags=re.S)   # dropped visibility qualifier
     return text
 
 
@@ -106,6 +109,11 @@ def annotate_fn(item_text, name, c):
                 edits.append(('replace', kw_at + bm.start(1), kw_at + bm.end(1), '/*@B<*/%s/*@B:_>*/' % lc['binder']))
             # if the source already names the binder, the invariant must use that name; nothing to do
         edits.append((lbrace, ghost(lc['clauses']) + ' '))
+    for ins in c.get('inserts', []):
+        hits = [mm for mm in re.finditer(ins['after'], msk[body_open:])]
+        if len(hits) != 1:
+            raise ScanError('ghost insert anchor %r in %s: %d matches' % (ins['after'], name, len(hits)))
+        edits.append((body_open + hits[0].end(), '\n' + ghost(ins['text']) + '\n'))
     out = item_text
     norm = []
     for e in edits:
@@ -183,9 +191,13 @@ class VerusUnit:
                 gen = annotate_fn(text, it['name'], c)
                 rec['check'] = gen
             else:
+                if it.get('drop_vis'):
+                    vm = re.match(r'\s*(pub\s*\([^)]*\)|pub)\s+', text)
+                    if vm:
+                        text = text[:vm.start(1)] + '/*@D:%s@*/' % vm.group(1) + text[vm.end(1):]
                 gen = ''.join(a + '\n' for a in found['attrs'] if it.get('keep_attrs', True)) + text
                 rec['check'] = text
-                rec['original'] = text
+                rec['original'] = found['text']
             # token equality: generated minus ghost == source item
             if rs.tokens(undo_markers(rec['check'])) != rs.tokens(rec['original']):
                 raise ScanError('token mismatch after annotating %s' % it['name'])
